@@ -62,6 +62,8 @@ impl Storage {
         {
             let leases = self.active_leases.read().await;
             if *leases == *expected {
+                #[cfg(walrus_verif)]
+                walrus_rust::wal::verif::api("lease_installed", &verif_keys(&leases), leases.len());
                 return;
             }
         }
@@ -71,6 +73,8 @@ impl Storage {
         for key in expected.iter() {
             leases.insert(key.clone());
         }
+        #[cfg(walrus_verif)]
+        walrus_rust::wal::verif::api("lease_installed", &verif_keys(&leases), leases.len());
     }
 
     async fn lock_for_key(&self, key: &str) -> Arc<Mutex<()>> {
@@ -114,6 +118,15 @@ impl Storage {
             warn!("write rejected for {} (leases: {:?})", wal_key, leases);
             bail!("NotLeaderForPartition: {}", wal_key);
         }
+        #[cfg(walrus_verif)]
+        walrus_rust::wal::verif::api("lease_ok", wal_key, 0);
         Ok(())
     }
+}
+
+#[cfg(walrus_verif)]
+fn verif_keys(set: &HashSet<String>) -> String {
+    let mut v: Vec<&str> = set.iter().map(|s| s.as_str()).collect();
+    v.sort();
+    v.join("\n")
 }
